@@ -12,7 +12,7 @@ import random
 from fractions import Fraction
 
 from harness import core
-from harness.core import zlit, boollit, listlit
+from harness.core import boollit, listlit
 
 ID = 'C14'
 PROPS = 'Props/C14.v'
@@ -99,8 +99,9 @@ Definition out_agree (m : outcome) (o : obs) : bool :=
   | _, _ => false
   end.
 
-(* recorded answers of np.linalg.inv: (n, matrix, answer, expected truth of "matrix . answer = I") *)
-Definition inv_tab := list (nat * dspec * option dspec * bool).
+(* recorded answers of np.linalg.inv: (n, matrix, answer, expected truth of "matrix . answer = I";
+   None = ill-conditioned matrix, guard band) *)
+Definition inv_tab := list (nat * dspec * option dspec * option bool).
 Definition key_tol : Q := 1 # 1000000000.
 Definition hyp_tol : Q := 1 # 1000000.
 Definition tab_inv (t : inv_tab) : inv_oracle := fun _ n d =>
@@ -110,10 +111,10 @@ Definition tab_inv (t : inv_tab) : inv_oracle := fun _ n d =>
   end.
 Definition tab_ok (t : inv_tab) : bool :=
   forallb (fun e => match e with
-                    | (n, m, Some b, flag) =>
+                    | (n, m, Some b, Some flag) =>
                         Bool.eqb flag (d_close hyp_tol (matmat n n n (dval m) (dval b)) (identity n)
                                        && d_close hyp_tol (matmat n n n (dval b) (dval m)) (identity n))
-                    | (_, _, None, _) => true end) t.
+                    | _ => true end) t.
 (* Python's number ** number for integer-valued exponents (all the generator produces): repeated multiplication *)
 Fixpoint cpow (x : C) (k : nat) : C := match k with O => c1 | S k' => cmul x (cpow x k') end.
 Definition no_spow : spow_oracle := fun ka a kb b =>
@@ -134,6 +135,8 @@ Definition expr_case (c : bool * expr * inv_tab * obs) : bool :=
   match c with
   | (negpow, e, t, o) => tab_ok t && out_agree (eval_expr negpow (tab_inv t) no_spow e) o
   end.
+Definition any_case (c : (bool * binop * val * val * inv_tab * list obs) + (bool * expr * inv_tab * obs)) : bool :=
+  match c with inl x => op_case x | inr y => expr_case y end.
 Definition OpAdd := MathArray.Add. Definition OpSub := MathArray.Sub. Definition OpMul := MathArray.Mul.
 Definition OpDiv := MathArray.Div. Definition OpPow := MathArray.Pow.
 Open Scope Z_scope.
@@ -409,13 +412,15 @@ def inv_table(calls):
         seen.add(key)
         rows = [[frac2(flat[i * n + j]) for j in range(n)] for i in range(n)]
         nonsingular = exact_rank(rows) == n
+        illcond = nonsingular and cond_estimate([[G(*x) for x in r] for r in rows]) > COND_GUARD
         if b is None:
-            terms.append('(%d%%nat, %s, None, false)' % (n, dspec(flat)))
-            entries.append((n, flat, None, not nonsingular))
+            terms.append('(%d%%nat, %s, None, None)' % (n, dspec(flat)))
+            entries.append((n, flat, None, not nonsingular, illcond))
         else:
             bflat = [pynum(x) for x in b.reshape(-1)]
-            terms.append('(%d%%nat, %s, Some %s, %s)' % (n, dspec(flat), dspec(bflat), boollit(nonsingular)))
-            entries.append((n, flat, bflat, not nonsingular))
+            flag = 'None' if illcond else '(Some %s)' % boollit(nonsingular)
+            terms.append('(%d%%nat, %s, Some %s, %s)' % (n, dspec(flat), dspec(bflat), flag))
+            entries.append((n, flat, bflat, not nonsingular, illcond))
     return listlit(terms), entries
 
 
@@ -519,10 +524,24 @@ def mat_inverse(m):
     return [row[n:] for row in a]
 
 
+COND_GUARD = 10 ** 6
+
+
+def cond_estimate(m):
+    """n*max|M| * n*max|M^-1| on exact values (infinite for a singular matrix): the guard band for float inverses"""
+    inv = mat_inverse(m)
+    if inv is None:
+        return float('inf')
+    n = len(m)
+    am = max(max(abs(float(x.re)), abs(float(x.im))) for x in rflat(m))
+    ai = max(max(abs(float(x.re)), abs(float(x.im))) for x in rflat(inv))
+    return n * am * n * ai
+
+
 ERR, ANY = ('err',), ('any',)
 
 
-def ref_binop(op, a, b, negpow=True, bkind=None):
+def ref_binop(op, a, b, negpow=True, bkind=None, notes=None):
     """a, b: reference values (G or nested lists).  Returns ('val', x) | ERR (linear algebra defines nothing: must be a
     student-facing error) | ANY (outside the property)."""
     sa, sb = rshape(a), rshape(b)
@@ -589,7 +608,13 @@ def ref_binop(op, a, b, negpow=True, bkind=None):
             return ERR
         base = mat_inverse(a)
         if base is None:
+            if notes is not None:
+                notes.append('singular-inverse')
             return ERR
+        if cond_estimate(a) > COND_GUARD:
+            if notes is not None:
+                notes.append('ill-conditioned')
+            return ANY                          # guard band: the float inverse of an ill-conditioned matrix is not compared
         k = -k
     out = [[G(1) if i == j else G(0) for j in range(n)] for i in range(n)]
     for _ in range(k):
@@ -718,7 +743,9 @@ def tolerance_for(op, a, b, entries, st, out):
     if op == 'Div':
         return Fraction(1, 10**12) * Fraction(1 + amax(got)), False, False
     if op == 'Pow' and b[0] == 'num' and b[1] != 'c' and complex(b[2]).real < 0 and entries:
-        n, _, bflat, singular = entries[0]
+        n, _, bflat, singular, illcond = entries[0]
+        if illcond:
+            return 0, True, False
         k = int(round(-complex(b[2]).real))
         if singular:
             return 0, k > 1, True
@@ -743,10 +770,12 @@ def ref_tol(op, a, b):
     return Fraction(0)
 
 
-def run_op_case(op, a, b, negpow, rec, res, terms, metas, corpus=False):
+def run_op_case(op, a, b, negpow, rec, res, terms, metas):
     from mitxgraders.helpers.calc.math_array import MathArray
     expect = ref_binop(op, to_ref(a), to_ref(b), negpow, b[1] if b[0] == 'num' else None)
     rtol = ref_tol(op, a, b)
+    key = 'operator_expect_' + ('value' if expect[0] == 'val' else 'error' if expect == ERR else 'outside')
+    res.distribution[key] = res.distribution.get(key, 0) + 1
     outcomes = []
     rec.take()
     for fname, fn in call_forms(op, a, b):
@@ -763,7 +792,7 @@ def run_op_case(op, a, b, negpow, rec, res, terms, metas, corpus=False):
     tab_term, entries = inv_table(rec.take())
     # the recorded defect, characterised by its mechanism: np.linalg.inv was asked for the inverse of an exactly singular
     # matrix (the base) and answered with a matrix instead of raising
-    inv_answered_singular = any(sing and bflat is not None for _, _, bflat, sing in entries)
+    inv_answered_singular = any(sing and bflat is not None for _, _, bflat, sing, _ in entries)
     for fname, st, out in outcomes:
         verdict = judge(expect, st, out, rtol)
         if verdict:
@@ -794,6 +823,24 @@ def run_op_case(op, a, b, negpow, rec, res, terms, metas, corpus=False):
     return expect, outcomes
 
 
+def defined_pairs():
+    """(operator, shape a, shape b) for which linear algebra defines a value; 'zero' = the zero scalar"""
+    valid = []
+    for sh in [sh for sh in SHAPES if sh != ()]:
+        valid += [('Add', sh, sh), ('Sub', sh, sh), ('Mul', (), sh), ('Mul', sh, ()), ('Div', sh, ()),
+                  ('Add', sh, 'zero'), ('Sub', 'zero', sh)]
+    for n in range(1, 5):
+        for m in range(1, 5):
+            if m * n > 1 and n > 1:
+                valid += [('Mul', (m, n), (n,)), ('Mul', (n,), (n, m))]
+            for q in range(1, 5):
+                if m * n > 1 and n * q > 1:
+                    valid.append(('Mul', (m, n), (n, q)))
+        if n > 1:
+            valid.append(('Mul', (n,), (n,)))
+    return valid
+
+
 def spread(terms, metas, ctx):
     """deterministic shuffle, so that the expensive cases (large inverses) are spread evenly over the parallel shards"""
     order = list(range(len(terms)))
@@ -819,7 +866,7 @@ def op_level(ctx, res, rng, rec):
               ('Mul', ('arr', 'i', (1, 2), [1, 2]), ('arr', 'i', (2, 1), [3, 4]), True),
               ('Add', ('arr', 'i', (2,), [1, 2]), ('num', 'f', 0.0), True)]
     for op, a, b, negpow in corpus:
-        run_op_case(op, a, b, negpow, rec, res, terms, metas, corpus=True)
+        run_op_case(op, a, b, negpow, rec, res, terms, metas)
     # the whole lattice: 23 x 23 shape pairs x 5 operators, entry kinds drawn per case
     for _ in range(rounds):
         for sa, sb in itertools.product(SHAPES, SHAPES):
@@ -838,6 +885,17 @@ def op_level(ctx, res, rng, rec):
                 negpow = not (op == 'Pow' and rng.random() < 0.3)
                 run_op_case(op, a, b, negpow, rec, res, terms, metas)
                 hist[op] = hist.get(op, 0) + 1
+    # operand pairs for which linear algebra does define a value (the lattice above is mostly incompatible pairs)
+    nvalid = 0
+    valid = defined_pairs()
+    for _ in range(1 if ctx['tier'] == 'quick' else 3):
+        for op, sa, sb in valid:
+            ka, kb = rng.choice(kinds), rng.choice(kinds)
+            a = ('num', ka, {'i': 0, 'f': 0.0, 'c': 0j}[ka]) if sa == 'zero' else gen_value(rng, sa, ka, zero_p=0.05)
+            b = ('num', kb, {'i': 0, 'f': 0.0, 'c': 0j}[kb]) if sb == 'zero' else gen_value(rng, sb, kb, zero_p=0.05)
+            run_op_case(op, a, b, True, rec, res, terms, metas)
+            nvalid += 1
+    res.distribution['operator_defined_pairs'] = nvalid
     # powers of square matrices: every exponent class x singular / non-singular x entry kinds, both switch positions
     npow = 0
     for n in (2, 3, 4):
@@ -862,13 +920,7 @@ def op_level(ctx, res, rng, rec):
     res.distribution['operator_cases_by_op'] = hist
     res.distribution['square_matrix_power_cases'] = npow
     res.samples.append({'operator_case': metas[len(metas) // 2]})
-    terms, metas = spread(terms, metas, ctx)
-    n, failing, errors = core.eval_agreement('c14_op', HEADER, 'op_case', terms, shard=len(terms) // (16 if ctx['tier'] == 'quick' else 48) + 1,
-                                             case_type='bool * binop * val * val * inv_tab * list obs')
-    res.programs += n
-    res.corr_errors += errors
-    for i in failing:
-        res.disagreements.append({'kind': 'operator', 'case': metas[i]})
+    return terms, metas
 
 
 # ------------------------------------------------------------------------------------------------------------------
@@ -999,7 +1051,7 @@ def ref_eval(t, env, negpow, notes):
                 if not isinstance(base[1], list) and not isinstance(res[1], list):
                     res = ANY                     # number ** number
                 else:
-                    res = ref_binop('Pow', base[1], res[1], negpow, None)
+                    res = ref_binop('Pow', base[1], res[1], negpow, None, notes)
             i -= 1
         return res
     first = ref_eval(t[1], env, negpow, notes)
@@ -1021,7 +1073,7 @@ def ref_eval(t, env, negpow, notes):
     acc = first[1]
     for o, v in kids:
         op = {'+': 'Add', '-': 'Sub', '*': 'Mul', '/': 'Div'}[o]
-        r = ref_binop(op, acc, v[1], negpow, None)
+        r = ref_binop(op, acc, v[1], negpow, None, notes)
         if r in (ERR, ANY):
             # the implementation may refuse earlier (triple-vector flag) or here; later operands cannot un-raise it
             return r
@@ -1034,6 +1086,7 @@ class FormulaGen:
         self.rng = rng
         self.env = {}
         self.counter = 0
+        self.n = rng.choice([2, 2, 3, 4])
 
     def var(self, v):
         name = 'v%d' % self.counter
@@ -1066,12 +1119,19 @@ class FormulaGen:
         return self.var(gen_value(rng, shape, kind))
 
     def random_shape(self):
-        r = self.rng.random()
+        # mostly shapes that fit together (one dimension n per formula), so that a good share of the trees has a value
+        r, n = self.rng.random(), self.n
         if r < 0.25:
             return ()
-        if r < 0.55:
+        if r < 0.58:
+            return (n,)
+        if r < 0.88:
+            return (n, n)
+        if r < 0.91:
+            return (n, 1) if self.rng.random() < 0.5 else (1, n)
+        if r < 0.94:
             return self.rng.choice(VEC_SHAPES)
-        if r < 0.95:
+        if r < 0.98:
             return self.rng.choice(MAT_SHAPES)
         return self.rng.choice(TEN_SHAPES)
 
@@ -1116,6 +1176,76 @@ class FormulaGen:
         return ('sum', first, rest) if rest else first
 
 
+class TypedGen(FormulaGen):
+    """formula trees that linear algebra does give a value to: built top-down from the shape they should have"""
+
+    def scalar_nonzero(self):
+        rng = self.rng
+        if rng.random() < 0.5:
+            return ('num', rng.choice(['1', '2', '3', '4', '0.5', '2.0', '1.5']))
+        k = rng.choice(['f', 'c'])
+        v = gen_scalar(rng, k, 0.0)
+        return self.var(('num', k, v[2] if k == 'c' else float(v[2])))
+
+    def t_factor(self, shape, depth):
+        rng = self.rng
+        r = rng.random()
+        if depth > 0 and r < 0.35:
+            return ('par', self.t_sum(shape, depth - 1))
+        if len(shape) == 2 and shape[0] == shape[1] and r < 0.55:
+            base = self.value_atom(shape) if rng.random() < 0.7 or depth == 0 else ('par', self.t_sum(shape, depth - 1))
+            items = [base]
+            if rng.random() < 0.3:
+                items.append('-')
+            items.append(('num', rng.choice(['0', '1', '2', '3', '2.0'])))
+            return ('pow', items)
+        atom = self.value_atom(shape)
+        if atom[0] == 'neg':
+            return atom
+        return ('neg', atom) if rng.random() < 0.15 else atom
+
+    def split(self, shape):
+        """shapes of two factors whose product has the given shape"""
+        rng, n = self.rng, self.n
+        if shape == ():
+            return rng.choice([[(), ()], [(n,), (n,)], [(1, n), (n, 1)], [(n,), (n, 1)]])
+        if len(shape) == 1:
+            m = shape[0]
+            return rng.choice([[(), shape], [shape, ()], [(m, n), (n,)], [(n,), (n, m)]])
+        m, q = shape
+        return rng.choice([[(), shape], [shape, ()], [(m, n), (n, q)]])
+
+    def t_prod(self, shape, depth):
+        rng = self.rng
+        shapes = [shape]
+        for _ in range(rng.choice([0, 1, 1, 2])):
+            if len(shapes[0]) > 2:
+                break
+            cand = self.split(shapes[0]) + shapes[1:]
+            if sum(1 for sh in cand if len(sh) == 1) <= 2 and all(len(sh) == 0 or sprod_py(sh) > 1 for sh in cand):
+                shapes = cand
+        first = self.t_factor(shapes[0], depth)
+        rest = [('*', self.t_factor(sh, depth)) for sh in shapes[1:]]
+        if rng.random() < 0.2:
+            rest.append(('/', self.scalar_nonzero()))
+        return ('prod', first, rest) if rest else first
+
+    def t_sum(self, shape, depth):
+        rng = self.rng
+        first = self.t_prod(shape, depth)
+        rest = []
+        while rng.random() < 0.4 and len(rest) < 2:
+            rest.append((rng.choice(['+', '-']), self.t_prod(shape, depth)))
+        return ('sum', first, rest) if rest else first
+
+
+def sprod_py(shape):
+    n = 1
+    for x in shape:
+        n *= x
+    return n
+
+
 def has_division_or_negpow(t):
     k = t[0]
     if k in ('num', 'var'):
@@ -1152,10 +1282,20 @@ def run_formula_case(tree, env, negpow, rec, res, terms, metas, tag):
     notes = []
     expect = ref_eval(tree, env, negpow, notes)
     loose = has_division_or_negpow(tree)
-    finding = any(sing and b is not None for _, _, b, sing in entries)
+    key = 'formula_expect_' + ('value' if expect[0] == 'val' else 'error' if expect == ERR else 'outside')
+    res.distribution[key] = res.distribution.get(key, 0) + 1
+    if 'triple' in notes:
+        res.distribution['formula_triple_vector_chains'] = res.distribution.get('formula_triple_vector_chains', 0) + 1
+    # the recorded defect at this level: the reference met an exactly singular base of a negative power (so an error is due)
+    # and np.linalg.inv handed back a matrix for a (numerically or exactly) singular operand instead of raising
+    answered = any(b is not None and (sing or ill) for _, _, b, sing, ill in entries)
+    finding = answered and ('singular-inverse' in notes or any(sing and b is not None for _, _, b, sing, _ in entries))
+    guard = any(ill for _, _, _, _, ill in entries) or 'ill-conditioned' in notes
     got = from_impl(out) if st == 'ret' else None
     rtol = Fraction(1, 10**6) * Fraction(1 + (amax(got) if got and finite(got) else 0)) if loose else Fraction(0)
-    verdict = judge(expect, st, out, rtol)
+    verdict = None if (guard and not finding) else judge(expect, st, out, rtol)
+    if guard:
+        res.boundary += 1
     if finding and st == 'ret':
         # a singular matrix was "inverted" below: whatever was computed from it is the same defect
         verdict = (FINDING_CODE, 'np.linalg.inv returned a matrix for an exactly singular operand and evaluation went on; result %s'
@@ -1167,10 +1307,10 @@ def run_formula_case(tree, env, negpow, rec, res, terms, metas, tag):
                               'variables': {k: jsonable(v) for k, v in env.items()},
                               'what': 'evaluator(%r)%s: %s' % (formula, '' if negpow else ' with negative powers disabled', text)})
     tol = Fraction(1, 10**9) * Fraction(1 + (amax(got) if got and finite(got) else 0)) if loose else 0
-    if finding:
+    if finding and not guard:
         res.boundary += 1
     terms.append('(%s, %s, %s, %s)' % (boollit(negpow), expr_term(tree, env), tab_term,
-                                       obs_term(st, out, tol, shape_only=finding, zero_div_any=True)))
+                                       obs_term(st, out, tol, shape_only=finding or guard, zero_div_any=True)))
     metas.append({'formula': formula, 'negpow': negpow, 'variables': {k: jsonable(v) for k, v in env.items()},
                   'observed': (st, repr(out)[:160])})
     res.nontrivial.add((tag, formula, negpow, repr(sorted((k, jsonable(v)) for k, v in env.items()))))
@@ -1217,6 +1357,17 @@ def formula_level(ctx, res, rng, rec):
             negpow = not (op == 'Pow' and rng.random() < 0.3)
             run_formula_case(tree, g.env, negpow, rec, res, terms, metas, 'pair')
             n_pairs += 1
+    # 1b. pairs for which linear algebra defines a value
+    n_def = 0
+    for op, sa, sb in defined_pairs():
+        g = FormulaGen(rng)
+        a = ('num', '0') if sa == 'zero' else g.value_atom(sa)
+        b = ('num', '0') if sb == 'zero' else g.value_atom(sb)
+        sym = SYM[op]
+        tree = ('sum', a, [(sym, b)]) if op in ('Add', 'Sub') else ('prod', a, [(sym, b)])
+        run_formula_case(tree, g.env, True, rec, res, terms, metas, 'defined')
+        n_def += 1
+    res.distribution['formula_defined_pairs'] = n_def
     # 2. negative powers of singular / non-singular matrices through literals and variables
     n_neg = 0
     for n in (2, 3, 4):
@@ -1237,7 +1388,7 @@ def formula_level(ctx, res, rng, rec):
                 n_neg += 1
     # 3. product chains of numbers, vectors and a few matrices (the triple-vector rule)
     n_chain = 0
-    for _ in range(500 if not thorough else 3000):
+    for _ in range(500 if not thorough else 2500):
         g = FormulaGen(rng)
         length = rng.randint(2, 6)
         n = rng.choice([2, 3])
@@ -1259,13 +1410,25 @@ def formula_level(ctx, res, rng, rec):
         n_chain += 1
     # 4. random trees
     n_tree = 0
-    for _ in range(900 if not thorough else 5000):
+    for _ in range(500 if not thorough else 2500):
         g = FormulaGen(rng)
         tree = g.sum(2)
         if tree[0] in ('num', 'var'):
             continue
         run_formula_case(tree, g.env, rng.random() < 0.85, rec, res, terms, metas, 'tree')
         n_tree += 1
+    # 4b. trees built top-down from a target shape (linear algebra gives them a value)
+    n_typed = 0
+    for _ in range(600 if not thorough else 3000):
+        g = TypedGen(rng)
+        n = g.n
+        shape = rng.choice([(), (n,), (n,), (n, n), (n, n), (n, 1), (2, 3), (2, 2, 2)])
+        tree = g.t_sum(shape, 2)
+        if tree[0] in ('num', 'var'):
+            continue
+        run_formula_case(tree, g.env, rng.random() < 0.9, rec, res, terms, metas, 'typed')
+        n_typed += 1
+    res.distribution['formula_typed_trees'] = n_typed
     # 5. array literals, ragged and regular
     n_lit = 0
     for _ in range(150 if not thorough else 1000):
@@ -1288,13 +1451,7 @@ def formula_level(ctx, res, rng, rec):
                              'formula_chains': n_chain, 'formula_random_trees': n_tree, 'formula_array_literals': n_lit})
     res.samples.append({'formula_case': metas[len(metas) // 3]})
     res.samples.append({'formula_case': metas[-7]})
-    terms, metas = spread(terms, metas, ctx)
-    n, failing, errors = core.eval_agreement('c14_expr', HEADER, 'expr_case', terms, shard=len(terms) // (16 if ctx['tier'] == 'quick' else 48) + 1,
-                                             case_type='bool * expr * inv_tab * obs')
-    res.programs += n
-    res.corr_errors += errors
-    for i in failing:
-        res.disagreements.append({'kind': 'formula', 'case': metas[i]})
+    return terms, metas
 
 
 # ------------------------------------------------------------------------------------------------------------------
@@ -1353,8 +1510,20 @@ def run(ctx):
                 'is non-trivial unless both operands are plain numbers; identity = (operator, shapes, kinds, entries, switch) or '
                 '(formula, variables, switch)')
     with InvRecorder() as rec:
-        op_level(ctx, res, rng, rec)
-        formula_level(ctx, res, rng, rec)
+        op_terms, op_metas = op_level(ctx, res, rng, rec)
+        f_terms, f_metas = formula_level(ctx, res, rng, rec)
+    # one batch for both kinds of cases (each coqc start-up costs more than a few hundred cases)
+    terms = ['(inl %s)' % t for t in op_terms] + ['(inr %s)' % t for t in f_terms]
+    metas = [{'kind': 'operator', 'case': m} for m in op_metas] + [{'kind': 'formula', 'case': m} for m in f_metas]
+    terms, metas = spread(terms, metas, ctx)
+    nfiles = 16 if ctx['tier'] == 'quick' else 48
+    n, failing, errors = core.eval_agreement(
+        'c14', HEADER, 'any_case', terms, shard=len(terms) // nfiles + 1,
+        case_type='(bool * binop * val * val * inv_tab * list obs) + (bool * expr * inv_tab * obs)')
+    res.programs += n
+    res.corr_errors += errors
+    for i in failing:
+        res.disagreements.append(metas[i])
     grader_level(ctx, res, rng)
     res.witnesses.sort(key=lambda w: w['code'] == FINDING_CODE)      # anything that is not the recorded defect is reported first
     res.distribution['witness_codes'] = {}
@@ -1406,7 +1575,7 @@ def replay(w):
                     return evaluator(w['formula'], variables=variables, functions={}, suffixes={})[0]
             st, out = core.guarded(call)
             _, entries = inv_table(rec.take())
-        finding = any(sing and b is not None for _, _, b, sing in entries)
+        finding = any((sing or ill) and b is not None for _, _, b, sing, ill in entries)
         if w.get('code') == FINDING_CODE:
             bad = finding and st == 'ret'
         else:
@@ -1440,10 +1609,11 @@ LEVEL_TEXT = ('Theorems for all shapes, all entries (Gaussian rationals) and all
               'the strict shape rules prescribe; where the rules define nothing the operator raises a student-facing error (nonzero '
               'scalar +/- array, unequal shapes, incompatible or tensor products, division by an array, powers of vectors/tensors/'
               'non-square matrices, non-integer or array exponents, negative powers while disabled); product chains of numbers and '
-              'vectors with three or more vector factors are refused for chains of any length; array literals are stacked or refused. '
-              'Negative powers are the power of the inverse RELATIVE TO the hypothesis that np.linalg.inv answers with a true inverse '
-              'or refuses; that hypothesis is refuted for numpy (C14_singular_negative_power_refuted): singular matrices can get a '
-              'huge finite "inverse" instead of the singular-matrix error.')
+              'vectors with three or more vector factors are refused for chains of any length; array literals are stacked or refused; '
+              'formula trees of any depth evaluate by linear-algebra steps only. Negative powers are the power of the inverse '
+              'RELATIVE TO the hypothesis that np.linalg.inv answers with a true inverse or refuses (then singular matrices are '
+              'errors, proved); that hypothesis is refuted for numpy (C14_singular_negative_power_refuted): singular matrices can '
+              'get a huge finite "inverse" instead of the singular-matrix error.')
 LEVEL_NOTE = ('Model tied to math_array.py / expressions.py by differential correspondence evaluated in Coq (operands, recorded '
               'np.linalg.inv answers and observed outcomes embedded in the case terms); numpy kernels are specified oracles; exact '
               'arithmetic, divisions and inverses compared within declared tolerances; no axioms.')
